@@ -53,7 +53,7 @@ PROBES = ["reader_blocked_by_writer", "writer_blocked", "three_or_more_polling",
           "session_failed_io_error", "queue_nonempty_after_failed_session", "same_path_two_spellings", "two_libraries",
           "pickled_handle", "create_race", "reader_saw_maybe_record", "molecule_library_payload", "failed_put_caught_session_continues"]
 
-SPELLINGS = ["{n}", "./{n}", "sub/../{n}", "{cwd}/{n}"]
+SPELLINGS = ["{n}", "./{n}", "sub/../{n}", "{cwd}/{n}", "ln/{n}", "lnk_{n}", "ln/ln/{n}"]
 
 
 # ---------------------------------------------------------------------------- value codec (module level: picklable)
